@@ -26,7 +26,8 @@ inline Plan gen_world_plan(Rng& r, const std::vector<OpWeight>& table, size_t n,
       Op o;
       o.code = code;
       for (auto& a : o.a) a = int64_t(r.below(uint64_t(range)));
-      if (faults_left > 0 and r.chance(1, 12)) { o.fault = int(r.range(1, 3)); --faults_left; }
+      // which allocation of the operation fails: most factory calls make one to three, declarations and macro operations up to ten
+      if (faults_left > 0 and r.chance(1, 12)) { o.fault = r.chance(1, 2) ? int(r.range(1, 3)) : int(r.range(4, 10)); --faults_left; }
       p.ops.push_back(o);
    }
    return p;
